@@ -39,6 +39,9 @@ From FB.Model Require Import Build.
 From FB.Spec Require Import Prog.
 From FB.Model Require Import Run.
 From FB.Proofs Require Import ReplayLaws ViewDefs ViewLemmas ViewScan ViewQueries ViewAnswers ViewInit ViewClean ViewXDefs ViewXOld ViewXRun ViewXSetup ViewXReach ViewOverlay ViewOverlay2 ViewXRun.
+(* T1g: Model/BuildDirs.v and Model/CreatedFiles.v are equal to the translation of build_dirs.py / created_files.py
+   (Gen/BookGen.v, regenerated on every run); a change of those sources that the model does not follow breaks this import *)
+From FB.Proofs Require BookGenLaws.
 Import ListNotations.
 Open Scope m_scope.
 
